@@ -51,6 +51,17 @@ fn fingerprint(g: &Graph<u32, u32>, weighted: bool, x: u32) -> String {
     out.push('#');
     out.push_str(&canon_pairs(dijkstra::multi_source(g, weighted, names.clone(), None, Some(3.0), true, true)));
     out.push('#');
+    // with a target the search of one source stops early: whatever a worker keeps between two sources of its chunk must
+    // not leak into the next one
+    let y = names.first().copied().unwrap_or(x);
+    for t in [x, y] {
+        out.push_str(&canon_pairs(dijkstra::all_pairs(g, weighted, Some(t), None, false, true)));
+        out.push('#');
+        out.push_str(&canon_pairs(dijkstra::all_pairs(g, weighted, Some(t), Some(4.0), true, false)));
+        out.push('#');
+        out.push_str(&canon_pairs(dijkstra::multi_source(g, weighted, names.clone(), Some(t), None, true, true)));
+        out.push('#');
+    }
     let mut inv: Vec<String> = dijkstra::get_all_shortest_paths_involving(g, x, weighted).into_iter().map(|i| { let mut ps = i.paths; ps.sort(); format!("{}:{:?}", i.distance.to_bits(), ps) }).collect();
     inv.sort();
     out.push_str(&inv.join(";"));
